@@ -5,9 +5,15 @@
 //   to_string    fn=i32|u32|i64|u64|ill|ull cap= v=   etl::to_string<cap> | std::to_string
 //   from_chars   ty= s=[..] base=             etl::from_chars          | std::from_chars
 //   to_integer   ty= s=[..] base= ws=0|1      strings::to_integer      | (skip blanks) std::from_chars
+//                base=0 (auto-detection, an extension of to_integer that from_chars passes on): the reference is glibc's
+//                strtoll / strtoull with base 0 on a NUL-terminated copy, restricted to to_integer's grammar (no '+', '-'
+//                only for signed types, white space only with ws=1) and range-checked against the type (`ref_base0`)
 //   to_integer_nc ty= s=[..] base= ws=0|1     the same with check_overflow = false; the reference prints `*` when
 //                                             the value is not representable (outside the option's contract)
-//   cstr         fn=strtol|strtoll|strtoul|strtoull|atoi|atol|atoll s=[..] base=   | glibc
+//   cstr         fn=strtol|strtoll|strtoul|strtoull|atoi|atol|atoll s=[..] base=   | glibc     (value,end)
+//   cstr_erange  fn=strtol|strtoll|strtoul|strtoull s=[..] base=   `*` | glibc's errno == ERANGE: tetl is freestanding and
+//                has no errno, so there is nothing to compare on the implementation side; the line validates the
+//                `erange` flag of the Lean spec (which masks ato* and tells where std::sto* throw)
 //   sto          fn=stoi|stol|stoll|stoul|stoull s=[..] base=                        | libstdc++
 //   round_trip   ty= v= base=                 to_chars then from_chars | same with std
 //   to_chars_all ty= v=                       bases 2..36: exact fit, one byte less, round trip
@@ -158,6 +164,49 @@ auto op_from_integer(Line const& l) -> std::string
     return l.i("term") != 0 ? op_from_integer_t<T, true>(l) : op_from_integer_t<T, false>(l);
 }
 
+auto c_isspace(char c) -> bool { return c == ' ' or (c >= '\t' and c <= '\r'); }
+
+// reference for base 0: glibc on a NUL-terminated copy (a NUL inside the view ends the number for to_integer as well:
+// it is neither white space, sign nor digit).  cls: 0 = value, 1 = no conversion, 2 = not representable in T.
+template <typename T>
+struct ref0 {
+    int cls{1};
+    T value{};
+    std::ptrdiff_t n{0};
+};
+
+template <typename T>
+auto ref_base0(char const* data, std::size_t size, bool ws) -> ref0<T>
+{
+    using R = ref_t<T>;
+    std::string z(data, size);
+    char const* p = z.c_str();
+    std::size_t k = 0;
+    if (ws) {
+        while (k < size and c_isspace(p[k])) ++k;
+    }
+    // what to_integer's grammar does not have: white space (unless skipped), '+', '-' for unsigned types
+    if (k == size or c_isspace(p[k]) or p[k] == '+' or (p[k] == '-' and not std::is_signed_v<R>)) return {};
+    char* end = nullptr;
+    errno     = 0;
+    if constexpr (std::is_signed_v<R>) {
+        long long v = std::strtoll(p + k, &end, 0);
+        if (end == p + k) return {};
+        auto n = end - p;
+        if (errno == ERANGE or v < static_cast<long long>(std::numeric_limits<R>::min())
+            or v > static_cast<long long>(std::numeric_limits<R>::max())) {
+            return {2, T{}, n};
+        }
+        return {0, static_cast<T>(v), n};
+    } else {
+        unsigned long long v = std::strtoull(p + k, &end, 0);
+        if (end == p + k) return {};
+        auto n = end - p;
+        if (errno == ERANGE or v > static_cast<unsigned long long>(std::numeric_limits<R>::max())) return {2, T{}, n};
+        return {0, static_cast<T>(v), n};
+    }
+}
+
 template <typename T>
 auto fmt_fc(std::string const& cls, T v, std::ptrdiff_t n) -> std::string
 {
@@ -171,14 +220,17 @@ auto op_from_chars(Line const& l) -> std::string
     auto const base = static_cast<int>(l.i("base"));
     T v             = T(77);
     auto r          = etl::from_chars(sb.p, sb.p + sb.n, v, base);
+    auto cls_e      = r.ec == etl::errc{} ? "ok" : r.ec == etl::errc::invalid_argument ? "invalid" : r.ec == etl::errc::result_out_of_range ? "range" : "ec?";
+    if (base == 0) {
+        auto q = ref_base0<T>(sb.p, sb.n, false);
+        return out(fmt_fc<T>(cls_e, v, r.ptr - sb.p),
+                   fmt_fc<T>(q.cls == 0 ? "ok" : q.cls == 1 ? "invalid" : "range", q.cls == 0 ? q.value : T(77), q.n));
+    }
     auto w          = ref_t<T>(77);
     auto q          = std::from_chars(sb.p, sb.p + sb.n, w, base);
-    auto cls_e      = r.ec == etl::errc{} ? "ok" : r.ec == etl::errc::invalid_argument ? "invalid" : r.ec == etl::errc::result_out_of_range ? "range" : "ec?";
     auto cls_s      = q.ec == std::errc{} ? "ok" : q.ec == std::errc::invalid_argument ? "invalid" : "range";
     return out(fmt_fc<T>(cls_e, v, r.ptr - sb.p), fmt_fc<ref_t<T>>(cls_s, w, q.ptr - sb.p));
 }
-
-auto c_isspace(char c) -> bool { return c == ' ' or (c >= '\t' and c <= '\r'); }
 
 template <typename T, bool Ws, bool Check = true>
 auto op_to_integer_t(Line const& l) -> std::string
@@ -194,6 +246,13 @@ auto op_to_integer_t(Line const& l) -> std::string
         e = "invalid(" + std::to_string(r.end - sb.p) + ")";
     } else {
         e = "overflow";
+    }
+    if (base == 0) {
+        auto q = ref_base0<T>(sb.p, sb.n, Ws);
+        std::string s0 = q.cls == 0 ? "none(" + num(q.value) + "," + std::to_string(q.n) + ")"
+                       : q.cls == 1 ? std::string("invalid(0)")
+                                    : std::string(Check ? "overflow" : "*");
+        return out(e, s0);
     }
     std::size_t k = 0;
     if (Ws) {
@@ -337,14 +396,25 @@ auto strto(Line const& l, FE fe, FS fs) -> std::string
     cstr c(l.list("s"));
     auto const base  = static_cast<int>(l.i("base"));
     char const* eend = nullptr;
-    errno            = 0;
     R ve             = fe(static_cast<char const*>(c.b.p), &eend, base);
-    auto e           = num(ve) + "," + std::to_string(eend - c.b.p) + "," + (errno == ERANGE ? "1" : "0");
+    // the end pointer is optional: the same call with last == nullptr must return the same value
+    R ve0            = fe(static_cast<char const*>(c.b.p), static_cast<char const**>(nullptr), base);
+    auto e           = num(ve) + "," + std::to_string(eend - c.b.p) + (ve0 == ve ? "" : "!null=" + num(ve0));
     char* send       = nullptr;
-    errno            = 0;
     R vs             = fs(c.b.p, &send, base);
-    auto s           = num(vs) + "," + std::to_string(send - c.b.p) + "," + (errno == ERANGE ? "1" : "0");
+    auto s           = num(vs) + "," + std::to_string(send - c.b.p);
     return out(e, s);
+}
+
+template <typename R, typename FS>
+auto strto_erange(Line const& l, FS fs) -> std::string
+{
+    cstr c(l.list("s"));
+    auto const base = static_cast<int>(l.i("base"));
+    char* send      = nullptr;
+    errno           = 0;
+    (void)fs(c.b.p, &send, base);
+    return out("*", errno == ERANGE ? "1" : "0");
 }
 
 template <typename R, typename FE, typename FS>
@@ -385,40 +455,78 @@ auto sto(Line const& l, FE fe, FS fs) -> std::string
     return out(e, s);
 }
 
-auto step(Line const& l) -> std::string
+// every operation that is a template over the integer type
+template <typename T>
+auto ops(Line const& l) -> std::string
 {
-    std::string const ty = l.has("ty") ? l.str("ty") : "";
-    std::string const fn = l.has("fn") ? l.str("fn") : "";
+    if (l.op == "to_chars") return op_to_chars<T>(l);
+    if (l.op == "from_integer") return op_from_integer<T>(l);
+    if (l.op == "from_chars") return op_from_chars<T>(l);
+    if (l.op == "to_integer") return op_to_integer<T>(l);
+    if (l.op == "to_integer_nc") return op_to_integer_nc<T>(l);
+    if (l.op == "round_trip") return op_round_trip<T>(l);
+    if (l.op == "to_chars_all") return op_to_chars_all<T>(l);
+    return "bad-op\tbad-op";
+}
 
-#define BY_TYPE(OP)                                                                                                    \
-    do {                                                                                                               \
-        if (ty == "i8") return OP<signed char>(l);                                                                     \
-        if (ty == "u8") return OP<unsigned char>(l);                                                                   \
-        if (ty == "i16") return OP<short>(l);                                                                          \
-        if (ty == "u16") return OP<unsigned short>(l);                                                                 \
-        if (ty == "i32") return OP<int>(l);                                                                            \
-        if (ty == "u32") return OP<unsigned>(l);                                                                       \
-        if (ty == "i64") return OP<long>(l);                                                                           \
-        if (ty == "u64") return OP<unsigned long>(l);                                                                  \
-        if (ty == "c8") return OP<char>(l);                                                                            \
-        if (ty == "ill") return OP<long long>(l);                                                                      \
-        if (ty == "ull") return OP<unsigned long long>(l);                                                             \
-        if (ty == "c8u") return OP<char8_t>(l);                                                                        \
-        if (ty == "c16") return OP<char16_t>(l);                                                                       \
-        if (ty == "c32") return OP<char32_t>(l);                                                                       \
-        if (ty == "wc") return OP<wchar_t>(l);                                                                         \
-        return std::string("bad-op\tbad-op");                                                                          \
-    } while (false)
+} // namespace
 
-    if (l.op == "to_chars") BY_TYPE(op_to_chars);
-    if (l.op == "from_integer") BY_TYPE(op_from_integer);
-    if (l.op == "from_chars") BY_TYPE(op_from_chars);
-    if (l.op == "to_integer") BY_TYPE(op_to_integer);
-    if (l.op == "to_integer_nc") BY_TYPE(op_to_integer_nc);
-    if (l.op == "round_trip") BY_TYPE(op_round_trip);
-    if (l.op == "to_chars_all") BY_TYPE(op_to_chars_all);
-#undef BY_TYPE
+// The file is compiled as several translation units in parallel (checks/props/c10.py: -DC10_PART=k compiles the
+// instantiations of type group k only, -DC10_PART=-1 compiles step()/main() and links the groups); without C10_PART it
+// is one translation unit.
+#ifndef C10_PART
+    #define C10_PART 99
+#endif
+#define C10_IN(k) (C10_PART == 99 || C10_PART == (k))
 
+namespace part {
+auto group0(Line const& l, std::string const& ty) -> std::string;
+auto group1(Line const& l, std::string const& ty) -> std::string;
+auto group2(Line const& l, std::string const& ty) -> std::string;
+auto group3(Line const& l, std::string const& ty) -> std::string;
+auto group4(Line const& l, std::string const& ty) -> std::string;
+auto group5(Line const& l, std::string const& ty) -> std::string;
+auto group6(Line const& l, std::string const& ty) -> std::string;
+auto group7(Line const& l, std::string const& ty) -> std::string;
+auto by_name(Line const& l, std::string const& fn) -> std::string;
+
+#define C10_GROUP(K, N1, T1, N2, T2)                                                                                   \
+    auto group##K(Line const& l, std::string const& ty) -> std::string                                                 \
+    {                                                                                                                  \
+        if (ty == N1) return ops<T1>(l);                                                                               \
+        if (ty == N2) return ops<T2>(l);                                                                               \
+        return "";                                                                                                     \
+    }
+#if C10_IN(0)
+C10_GROUP(0, "i8", signed char, "u8", unsigned char)
+#endif
+#if C10_IN(1)
+C10_GROUP(1, "i16", short, "u16", unsigned short)
+#endif
+#if C10_IN(2)
+C10_GROUP(2, "i32", int, "u32", unsigned)
+#endif
+#if C10_IN(3)
+C10_GROUP(3, "i64", long, "u64", unsigned long)
+#endif
+#if C10_IN(4)
+C10_GROUP(4, "c8", char, "ill", long long)
+#endif
+#if C10_IN(5)
+C10_GROUP(5, "ull", unsigned long long, "c8u", char8_t)
+#endif
+#if C10_IN(6)
+C10_GROUP(6, "c16", char16_t, "c32", char32_t)
+#endif
+#if C10_IN(7)
+C10_GROUP(7, "wc", wchar_t, "wc", wchar_t)
+#endif
+#undef C10_GROUP
+
+#if C10_IN(8)
+// the operations selected by a function name
+auto by_name(Line const& l, std::string const& fn) -> std::string
+{
     if (l.op == "to_string") {
         if (fn == "i32") return op_to_string<int>(l);
         if (fn == "u32") return op_to_string<unsigned>(l);
@@ -436,6 +544,12 @@ auto step(Line const& l) -> std::string
         if (fn == "atol") return ato<long>(l, [](char const* p) { return etl::atol(p); }, [](char const* p) { return std::atol(p); });
         if (fn == "atoll") return ato<long long>(l, [](char const* p) { return etl::atoll(p); }, [](char const* p) { return std::atoll(p); });
     }
+    if (l.op == "cstr_erange") {
+        if (fn == "strtol") return strto_erange<long>(l, [](auto... a) { return std::strtol(a...); });
+        if (fn == "strtoll") return strto_erange<long long>(l, [](auto... a) { return std::strtoll(a...); });
+        if (fn == "strtoul") return strto_erange<unsigned long>(l, [](auto... a) { return std::strtoul(a...); });
+        if (fn == "strtoull") return strto_erange<unsigned long long>(l, [](auto... a) { return std::strtoull(a...); });
+    }
     if (l.op == "sto") {
         if (fn == "stoi") return sto<int>(l, [](auto... a) { return etl::stoi(a...); }, [](auto... a) { return std::stoi(a...); });
         if (fn == "stol") return sto<long>(l, [](auto... a) { return etl::stol(a...); }, [](auto... a) { return std::stol(a...); });
@@ -445,7 +559,25 @@ auto step(Line const& l) -> std::string
     }
     return "bad-op\tbad-op";
 }
+#endif
+} // namespace part
 
+#if C10_IN(-1)
+namespace {
+auto step(Line const& l) -> std::string
+{
+    std::string const ty = l.has("ty") ? l.str("ty") : "";
+    std::string const fn = l.has("fn") ? l.str("fn") : "";
+    if (l.has("ty")) {
+        for (auto g : {part::group0, part::group1, part::group2, part::group3, part::group4, part::group5, part::group6, part::group7}) {
+            auto r = g(l, ty);
+            if (not r.empty()) return r;
+        }
+        return "bad-op\tbad-op";
+    }
+    return part::by_name(l, fn);
+}
 } // namespace
 
 int main(int argc, char** argv) { return proto::run(argc, argv, step); }
+#endif
